@@ -173,3 +173,31 @@ Proof.
   eapply sweep_no_panic; [exact Hs|exact Hr|]. eapply sweep_fact_later; [exact Hn|].
   exact (proj1 (Forall_forall _ _) HW pe Hin).
 Qed.
+
+(* ---------- a third assertion site: "the completion of a create-with-task must be a create-with-task result" ----------
+   The discipline (Discipline.k_ok / k_expects, part of SInv) records that a create-with-task request carries its task
+   command through every program point and that the submission awaited at KCreate_store IS the command its
+   continuation names; a completion tells the truth about the command it answers (rdy_ok).  So a coroutine created
+   by a create-with-task request is never handed the result of a plain create. *)
+Lemma create_task_result_shape : forall d r tc0 wt pc tc s c,
+    k_ok d (KCreate_store r tc0 wt pc tc) -> k_expects (KCreate_store r tc0 wt pc tc) s -> rdy_ok d s c -> wt = true ->
+    forall n rs, c <> CStore (RAlter n :: rs).
+Proof.
+  intros d r tc0 wt pc tc s c [_ [_ Hwt]] He Hr -> n rs ->. cbn in He. destruct tc as [t|]; [|exact (Hwt eq_refl eq_refl)].
+  subst s. cbn in Hr. inversion Hr as [|? ? ? ? Hhd _]; subst. destruct Hhd as [a [b [E _]]]. discriminate.
+Qed.
+
+Theorem create_with_task_never_asserts : forall cfg sch i r tc0 wt pc tc n pe c,
+    sch_wf sch ->
+    let s := state_after cfg (sys0 db0) sch in
+    In i (s_insts s) -> i_st i = CSeq (KCreate_store r tc0 wt pc tc) n ->
+    In pe (s_pend s) -> pd_id pe = i_id i -> pd_n pe = n -> pd_ready pe = Some c ->
+    wt = true -> forall m rs, c <> CStore (RAlter m :: rs).
+Proof.
+  intros cfg sch i r tc0 wt pc tc n pe c Hw s Hi Hst Hpe Hid Hn Hr Hwt.
+  destruct (reach_inv cfg sch (sys0 db0) SInv_init (Forall_nil _) Hw) as [[_ [HP [HI _]]] _]. fold s in HP, HI.
+  pose proof (proj1 (Forall_forall _ _) HI i Hi) as [Hok [_ Hexp]]. rewrite Hst in Hok. cbn in Hok.
+  destruct (Hexp _ _ Hst) as [_ Hke]. specialize (Hke pe Hpe Hid Hn).
+  pose proof (proj1 (Forall_forall _ _) HP pe Hpe) as Hpk. unfold pend_ok in Hpk. rewrite Hr in Hpk.
+  eapply create_task_result_shape; eassumption.
+Qed.
